@@ -1183,9 +1183,8 @@ class TimeDateTime(TimeFormat):
     @classmethod
     def _to_jds(cls, val, val2=None, scale=None):
         try:
-            if val2 is not None:
-                val = np.asarray(val) + np.asarray(val2)
-            return np.array([cls._dt2jd(dt) for dt in val]).T
+            vals = val if val2 is None else np.asarray(val) + np.asarray(val2)
+            return np.array([cls._dt2jd(dt) for dt in vals]).T
         except TypeError:
             if val2 is not None:
                 val = val + val2
